@@ -175,30 +175,39 @@ class Run:
             raise Infra("%s/%s: TLC failed (rc=%s)\n%s" % (module, cfg, rc, "\n".join(lines[-40:])))
         return rec
 
-    def apalache_inductive(self, module, cinit, indinv, timeout=600, indinit=None, implies=None):
-        """Unbounded safety of a small integer/boolean machine: Init => IndInv (length 0) and
-        IndInv /\\ Next => IndInv' (length 1) with Apalache.  Failure or absence of the tool is an
-        infrastructure matter (the bounded TLC result stands on its own)."""
+    def apalache_inductive(self, module, cinit, indinv, timeout=900, indinit=None, implies=None, actions=(), negative=None):
+        """Unbounded safety with Apalache: Init => IndInv (length 0), IndInv /\\ Next => IndInv' (length 1),
+        IndInv => each of `implies` (length 0), each action invariant of `actions` on every step from IndInv
+        (length 1).  negative=(next, inv): with the regression step relation `next` the invariant must be
+        violated from IndInv - the negative control.  Failure or absence of the tool is an infrastructure
+        matter (the bounded TLC result stands on its own)."""
         if shutil.which("apalache-mc") is None:
             self.assumptions.append("apalache-mc not available: unbounded inductive check of %s skipped" % module)
             return False
         d = self.specdir("apa-" + module)
-        ok = True
-        steps = [("Init", indinv, "0"), (indinit or indinv, indinv, "1")]
-        if implies:
-            steps.append((indinit or indinv, implies, "0"))
-        for init, inv, length in steps:
-            cmd = ["apalache-mc", "check"] + (["--cinit=" + cinit] if cinit else []) + ["--init=" + init, "--inv=" + inv, "--length=" + length,
-                   "--out-dir=" + os.path.join(d, "apa-out"), module + ".tla"]
+        start = indinit or indinv
+        if isinstance(implies, str):
+            implies = [implies]
+        steps = [("Init", indinv, "0", "Next", True), (start, indinv, "1", "Next", True)]
+        steps += [(start, i, "0", "Next", True) for i in (implies or [])]
+        steps += [(start, a, "1", "Next", True) for a in actions]
+        if negative:
+            steps.append((start, negative[1], "1", negative[0], False))
+        checked = []
+        for init, inv, length, nxt, want_ok in steps:
+            cmd = ["apalache-mc", "check"] + (["--cinit=" + cinit] if cinit else []) + ["--init=" + init, "--next=" + nxt, "--inv=" + inv,
+                   "--length=" + length, "--out-dir=" + os.path.join(d, "apa-out"), module + ".tla"]
             try:
                 r = subprocess.run(cmd, cwd=d, capture_output=True, text=True, timeout=timeout)
             except subprocess.TimeoutExpired:
                 raise Infra("apalache timed out on %s" % module)
-            if "EXITCODE: OK" not in r.stdout:
-                ok = False
-                raise Infra("apalache: %s is not an inductive invariant of %s (init=%s):\n%s" % (indinv, module, init, r.stdout[-1500:]))
-        self.extra.setdefault("apalache_inductive_invariants", []).append({"module": module, "invariant": indinv, "constants": cinit, "ok": ok})
-        return ok
+            if want_ok and "EXITCODE: OK" not in r.stdout:
+                raise Infra("apalache: %s does not hold in %s (init=%s, length=%s):\n%s" % (inv, module, init, length, r.stdout[-1500:]))
+            if not want_ok and "EXITCODE: ERROR (12)" not in r.stdout:
+                raise Infra("apalache: negative control of %s did not violate %s under %s:\n%s" % (module, inv, nxt, r.stdout[-1500:]))
+            checked.append({"init": init, "next": nxt, "inv": inv, "length": int(length), "expected": "holds" if want_ok else "violated"})
+        self.extra.setdefault("apalache_inductive_invariants", []).append({"module": module, "invariant": indinv, "constants": cinit, "ok": True, "obligations": checked})
+        return True
 
     # ---------------------------------------------------------------- driver
     def drive(self, family, shards=1, extra_args=(), race=False, env=None, timeout=3000, crash_ok=False):
